@@ -31,6 +31,9 @@ type t7 struct {
 	ntmp   int
 	lower  map[string]int64 // known lower bounds of int variables
 	scalar map[string]bool  // names bound to decoded scalars
+	field  map[string]bool  // names bound to field values (value level: naturals < P once range-checked)
+	errT   string           // Lean error type of the function
+	sigLit map[string][]string // sig := &Signature{r, s, code}
 	sb     strings.Builder
 	indent string
 	fn     string
@@ -149,6 +152,13 @@ func (t *t7) expr(e ast.Expr) string {
 			if id, ok := sel.X.(*ast.Ident); ok && t.scalar[id.Name] && sel.Sel.Name == "IsZero" && len(x.Args) == 0 {
 				return "(" + id.Name + " == 0)"
 			}
+			if id, ok := sel.X.(*ast.Ident); ok && t.field[id.Name] && sel.Sel.Name == "IsOdd" && len(x.Args) == 0 {
+				return "(" + id.Name + " % 2 == 1)"
+			}
+		}
+		if id, ok := x.Fun.(*ast.Ident); ok && id.Name == "isOnCurve" && len(x.Args) == 2 {
+			a, b := t.fieldArg(x.Args[0]), t.fieldArg(x.Args[1])
+			return "(isOnCurveM " + a + " " + b + ")"
 		}
 	case *ast.IndexExpr:
 		base := t.expr(x.X)
@@ -194,9 +204,9 @@ func (t *t7) expr(e ast.Expr) string {
 			t.line("pure %s)", r)
 			t.indent = saved
 			if x.Op == token.LAND {
-				t.line("  else pure false : Outcome SigErr Bool)")
+				t.line("  else pure false : Outcome %s Bool)", t.errT)
 			} else {
-				t.line("  else pure true : Outcome SigErr Bool)")
+				t.line("  else pure true : Outcome %s Bool)", t.errT)
 			}
 			return v
 		case token.ADD:
@@ -229,6 +239,17 @@ func (t *t7) expr(e ast.Expr) string {
 	return "0"
 }
 
+// fieldArg: `&x` with x a field-value variable
+func (t *t7) fieldArg(e ast.Expr) string {
+	if u, ok := e.(*ast.UnaryExpr); ok && u.Op == token.AND {
+		if id, ok := u.X.(*ast.Ident); ok && t.field[id.Name] {
+			return id.Name
+		}
+	}
+	t.fail(e, "argument is not the address of a field-value variable")
+	return "0"
+}
+
 // errKindOf: the error kind of `return nil, signatureError(K, …)` / `makeError(K, …)`; "" if the statement is not of that form
 func (t *t7) errKindOf(s ast.Stmt) string {
 	r, ok := s.(*ast.ReturnStmt)
@@ -247,7 +268,22 @@ func (t *t7) errKindOf(s ast.Stmt) string {
 	if !ok {
 		return ""
 	}
+	if len(r.Results) == 3 {
+		// return nil, flag, err : the flag travels with the error kind
+		if effectful(r.Results[1]) {
+			return ""
+		}
+		return "(" + k.Name + ", " + t.expr(r.Results[1]) + ")"
+	}
 	return k.Name
+}
+
+// errTerm: Lean term for an error payload produced by errKindOf
+func errTerm(kind string) string {
+	if strings.HasPrefix(kind, "(") {
+		return "(." + kind[1:]
+	}
+	return "." + kind
 }
 
 // errBody: a block whose only effect is to return an error (string building allowed)
@@ -286,12 +322,27 @@ func (t *t7) recordGuard(c ast.Expr) {
 	}
 }
 
-func (t *t7) stmts(list []ast.Stmt) {
-	for _, s := range list {
+// block translates a statement list; k emits what follows the list when it does not end in a return.
+func (t *t7) block(list []ast.Stmt, k func()) {
+	for si, s := range list {
 		if t.err != nil {
 			return
 		}
+		rest := list[si+1:]
 		switch st := s.(type) {
+		case *ast.SwitchStmt:
+			t.switchStmt(st, func() { t.block(rest, k) })
+			return
+		case *ast.ExprStmt:
+			// v.Normalize() on a field value: the identity at value level (that it is NEEDED at limb level is C16's concern)
+			if call, ok := st.X.(*ast.CallExpr); ok {
+				if sel, ok := call.Fun.(*ast.SelectorExpr); ok && sel.Sel.Name == "Normalize" && len(call.Args) == 0 {
+					if id, ok := sel.X.(*ast.Ident); ok && t.field[id.Name] {
+						continue
+					}
+				}
+			}
+			t.fail(st, "expression statement outside the T7 subset")
 		case *ast.DeclStmt:
 			gd := st.Decl.(*ast.GenDecl)
 			if gd.Tok == token.CONST {
@@ -321,6 +372,10 @@ func (t *t7) stmts(list []ast.Stmt) {
 							t.scalar[nm.Name] = true
 							continue
 						}
+						if isFieldVal(obj.Type()) && len(vs.Values) == 0 {
+							t.field[nm.Name] = true
+							continue
+						}
 						t.fail(st, "variable declaration of %s", nm.Name)
 					}
 				}
@@ -328,6 +383,31 @@ func (t *t7) stmts(list []ast.Stmt) {
 			}
 			t.fail(st, "declaration")
 		case *ast.AssignStmt:
+			if len(st.Lhs) == 1 && len(st.Rhs) == 1 && st.Tok == token.SUB_ASSIGN {
+				// b -= c on a byte: wrap-around subtraction, the same in Go and in Lean's UInt8
+				if id, ok := st.Lhs[0].(*ast.Ident); ok && isByteT(t.p.info.Types[st.Lhs[0]].Type) {
+					t.line("let %s := %s - %s", id.Name, id.Name, t.expr(st.Rhs[0]))
+					continue
+				}
+			}
+			if len(st.Lhs) == 1 && len(st.Rhs) == 1 && st.Tok == token.DEFINE {
+				// sig := &Signature{r, s, code}
+				if u, ok := st.Rhs[0].(*ast.UnaryExpr); ok && u.Op == token.AND {
+					if cl, ok := u.X.(*ast.CompositeLit); ok && len(cl.Elts) == 3 {
+						if tn, ok := cl.Type.(*ast.Ident); ok && tn.Name == "Signature" {
+							var parts []string
+							for _, e := range cl.Elts {
+								parts = append(parts, t.expr(e))
+							}
+							if t.sigLit == nil {
+								t.sigLit = map[string][]string{}
+							}
+							t.sigLit[st.Lhs[0].(*ast.Ident).Name] = parts
+							continue
+						}
+					}
+				}
+			}
 			if len(st.Lhs) != 1 || len(st.Rhs) != 1 || (st.Tok != token.DEFINE && st.Tok != token.ASSIGN) {
 				t.fail(st, "assignment form")
 				return
@@ -360,8 +440,32 @@ func (t *t7) stmts(list []ast.Stmt) {
 			}
 			kind := t.errBody(st.Body)
 			if kind == "" {
-				t.fail(st, "if body is not an error return")
-				return
+				// a block that falls through: its effects are checks only (it may return an error, it binds nothing
+				// that is used afterwards)
+				if st.Init != nil {
+					t.fail(st, "if with initialiser and a body that falls through")
+					return
+				}
+				c := t.expr(st.Cond)
+				saved := t.indent
+				t.line("let _ ← (if %s then (do", c)
+				t.indent = saved + "    "
+				t.block(st.Body.List, func() { t.line("pure ())") })
+				t.indent = saved
+				t.line("  else pure () : Outcome %s Unit)", t.errT)
+				continue
+			}
+			// if !DecompressY(&x, odd, &y) { return err }
+			if u, ok := st.Cond.(*ast.UnaryExpr); ok && u.Op == token.NOT && st.Init == nil {
+				if call, ok := u.X.(*ast.CallExpr); ok {
+					if id, ok := call.Fun.(*ast.Ident); ok && id.Name == "DecompressY" && len(call.Args) == 3 {
+						x := t.fieldArg(call.Args[0])
+						odd := t.expr(call.Args[1])
+						y := t.fieldArg(call.Args[2])
+						t.line("let %s ← (match decompressY %s %s with | none => (.err %s : Outcome %s Nat) | some v => pure v)", y, x, odd, errTerm(kind), t.errT)
+						continue
+					}
+				}
 			}
 			if st.Init != nil {
 				// overflow := s.SetByteSlice(x)
@@ -381,22 +485,26 @@ func (t *t7) stmts(list []ast.Stmt) {
 					return
 				}
 				recv, ok := sel.X.(*ast.Ident)
-				if !ok || !t.scalar[recv.Name] {
+				if !ok || !(t.scalar[recv.Name] || t.field[recv.Name]) {
 					t.fail(st, "SetByteSlice receiver")
 					return
 				}
 				ov := as.Lhs[0].(*ast.Ident).Name
 				arg := t.expr(call.Args[0])
-				t.line("let (%s, %s) := scalarSetByteSlice %s", recv.Name, ov, arg)
+				if t.field[recv.Name] {
+					t.line("let (%s, %s) := fieldSetBytes32 %s", recv.Name, ov, arg)
+				} else {
+					t.line("let (%s, %s) := scalarSetByteSlice %s", recv.Name, ov, arg)
+				}
 			}
 			c := t.expr(st.Cond)
-			t.line("if %s then .err .%s else", c, kind)
+			t.line("if %s then .err %s else", c, errTerm(kind))
 			t.recordGuard(st.Cond)
 		case *ast.ReturnStmt:
 			// return NewSignature(&r, &s), nil
 			if len(st.Results) == 2 {
 				if call, ok := st.Results[0].(*ast.CallExpr); ok {
-					if id, ok := call.Fun.(*ast.Ident); ok && id.Name == "NewSignature" && len(call.Args) == 2 {
+					if id, ok := call.Fun.(*ast.Ident); ok && (id.Name == "NewSignature" || id.Name == "NewPublicKey") && len(call.Args) == 2 {
 						var names []string
 						for _, a := range call.Args {
 							u, ok := a.(*ast.UnaryExpr)
@@ -407,15 +515,108 @@ func (t *t7) stmts(list []ast.Stmt) {
 							names = append(names, u.X.(*ast.Ident).Name)
 						}
 						t.line("pure (%s, %s)", names[0], names[1])
-						continue
+						return
+					}
+				}
+			}
+			if kind := t.errKindOf(st); kind != "" {
+				t.line(".err %s", errTerm(kind))
+				return
+			}
+			// return sig, flag, nil   with sig := &Signature{r, s, code}
+			if len(st.Results) == 3 {
+				if id, ok := st.Results[0].(*ast.Ident); ok {
+					if parts, ok := t.sigLit[id.Name]; ok && !effectful(st.Results[1]) {
+						t.line("pure (%s, %s, %s.toNat, %s)", parts[0], parts[1], parts[2], t.expr(st.Results[1]))
+						return
 					}
 				}
 			}
 			t.fail(st, "return form")
+			return
 		default:
 			t.fail(s, "statement %T outside the T7 subset", s)
 		}
 	}
+	if k != nil {
+		k()
+	}
+}
+
+// switchStmt: a tagged switch on a value without effects.
+//   * every non-default clause empty, default = error return:   if !(tag == v1 || …) then .err .K else <k>
+//   * otherwise an if / else-if chain; each clause body is followed by the continuation k (duplicated)
+func (t *t7) switchStmt(st *ast.SwitchStmt, k func()) {
+	if st.Init != nil || st.Tag == nil {
+		t.fail(st, "switch form")
+		return
+	}
+	if effectful(st.Tag) {
+		t.fail(st, "switch tag with effects")
+		return
+	}
+	tag := t.expr(st.Tag)
+	var clauses []*ast.CaseClause
+	var def *ast.CaseClause
+	allEmpty := true
+	for _, c := range st.Body.List {
+		cl := c.(*ast.CaseClause)
+		if cl.List == nil {
+			def = cl
+			continue
+		}
+		clauses = append(clauses, cl)
+		if len(cl.Body) != 0 {
+			allEmpty = false
+		}
+	}
+	condOf := func(cl *ast.CaseClause) string {
+		var parts []string
+		for _, v := range cl.List {
+			parts = append(parts, "("+tag+" == "+t.expr(v)+")")
+		}
+		return strings.Join(parts, " || ")
+	}
+	if allEmpty && def != nil {
+		kind := t.errBody(&ast.BlockStmt{List: def.Body})
+		if kind == "" {
+			t.fail(st, "default clause is not an error return")
+			return
+		}
+		var parts []string
+		for _, cl := range clauses {
+			parts = append(parts, condOf(cl))
+		}
+		t.line("if !(%s) then .err %s else", strings.Join(parts, " || "), errTerm(kind))
+		k()
+		return
+	}
+	saved := t.indent
+	for i, cl := range clauses {
+		if i == 0 {
+			t.line("if %s then (do", condOf(cl))
+		} else {
+			t.line("else if %s then (do", condOf(cl))
+		}
+		t.indent = saved + "    "
+		lower := map[string]int64{}
+		for n, v := range t.lower {
+			lower[n] = v
+		}
+		t.block(cl.Body, k)
+		t.lower = lower
+		t.indent = saved
+		t.line("  )")
+	}
+	t.line("else (do")
+	t.indent = saved + "    "
+	if def != nil {
+		t.block(def.Body, k)
+	} else {
+		k()
+	}
+	t.indent = saved
+	t.line("  )")
 }
 
 // for len(x) > 0 && x[0] == 0x00 { x = x[1:] }
@@ -482,24 +683,43 @@ func (t *t7) stripIdiom(f *ast.ForStmt) (string, bool) {
 	return name.Name, true
 }
 
-func passBytes(p *Pkg) (string, []string) {
+type bytesEntry struct {
+	pkg                  int // 0 = secp256k1, 1 = schnorr
+	fn, lean, errT, retT string
+}
+
+func passBytes(pkgs []*Pkg) (string, []string) {
 	var errs []string
 	var sb strings.Builder
-	sb.WriteString("import Secp.Model.Der\n/- GENERATED by tools/gotr (pass T7) from /repo — do not edit.\n   Byte-level parsers translated statement by statement into the `Outcome` monad (see tools/gotr/bytes.go). -/\nnamespace Secp.Gen.BytesProg\nopen Secp.Spec Secp.Model\n\n")
-	fd := p.funcs["ParseDERSignature"]
-	if fd == nil {
-		return "", []string{"bytes: ParseDERSignature not found"}
+	sb.WriteString("import Secp.Model.Der\nimport Secp.Model.PubKey\nimport Secp.Model.Schnorr\n/- GENERATED by tools/gotr (pass T7) from /repo — do not edit.\n   Byte-level parsers translated statement by statement into the `Outcome` monad (see tools/gotr/bytes.go). -/\nnamespace Secp.Gen.BytesProg\nopen Secp.Spec Secp.Model\n\n")
+	for _, e := range []bytesEntry{
+		{0, "ParseDERSignature", "parseDER", "SigErr", "Nat × Nat"},
+		{0, "ParsePubKey", "parsePubKey", "PubErr", "Nat × Nat"},
+		{0, "ParseCompactSignature", "parseCompact", "(SigErr × Bool)", "Nat × Nat × Nat × Bool"},
+		{1, "ParseSignature", "schnorrParse", "SchnorrErr", "Nat × Nat"},
+	} {
+		if e.pkg >= len(pkgs) {
+			errs = append(errs, "bytes: package of "+e.fn+" not loaded")
+			continue
+		}
+		p := pkgs[e.pkg]
+		fd := p.funcs[e.fn]
+		if fd == nil {
+			errs = append(errs, "bytes: "+e.fn+" not found")
+			continue
+		}
+		t := &t7{p: p, lower: map[string]int64{}, scalar: map[string]bool{}, field: map[string]bool{}, indent: "  ", fn: e.fn, errT: e.errT}
+		if len(fd.Type.Params.List) != 1 || len(fd.Type.Params.List[0].Names) != 1 {
+			errs = append(errs, "bytes: "+e.fn+" signature changed")
+			continue
+		}
+		arg := fd.Type.Params.List[0].Names[0].Name
+		t.block(fd.Body.List, nil)
+		if t.err != nil {
+			errs = append(errs, t.err.Error())
+		}
+		fmt.Fprintf(&sb, "/-- %s -/\ndef %s (%s : Bytes) : Outcome %s (%s) := do\n%s\n", e.fn, e.lean, arg, e.errT, e.retT, t.sb.String())
 	}
-	t := &t7{p: p, lower: map[string]int64{}, scalar: map[string]bool{}, indent: "  ", fn: "ParseDERSignature"}
-	if len(fd.Type.Params.List) != 1 || len(fd.Type.Params.List[0].Names) != 1 {
-		return "", []string{"bytes: ParseDERSignature signature changed"}
-	}
-	arg := fd.Type.Params.List[0].Names[0].Name
-	t.stmts(fd.Body.List)
-	if t.err != nil {
-		errs = append(errs, t.err.Error())
-	}
-	fmt.Fprintf(&sb, "/-- signature.go ParseDERSignature -/\ndef parseDER (%s : Bytes) : Outcome SigErr (Nat × Nat) := do\n%s\n", arg, t.sb.String())
 	sb.WriteString("end Secp.Gen.BytesProg\n")
 	return sb.String(), errs
 }
